@@ -69,9 +69,9 @@ Section Sound.
   (** [playback_state().is_advancing()] *)
   Definition is_advancing (s : ssound) : bool := negb (s_stopped s).
 
-  (** [StaticSound::is_playing_backwards] *)
+  (** [StaticSound::is_playing_backwards]: [playback_rate.value().0 < 0.0] (so -0.0, like 0.0, is forwards) *)
   Definition is_playing_backwards (s : ssound) : bool :=
-    let b := nsignneg (p_raw (s_rate s)) in
+    let b := nltb (p_raw (s_rate s)) n0 in
     if s_reverse s then negb b else b.
 
   (** [StaticSound::push_frame_to_resampler] *)
